@@ -1,6 +1,6 @@
-import sys, os; sys.path.insert(0,'/tmp/wp_mpsc/lean/MayVerif/Proof/Queue/Mpsc/gen')
+import sys, os; sys.path.insert(0,os.path.dirname(os.path.abspath(__file__)))
 from ctors import *
-D='/tmp/wp_mpsc/lean/MayVerif/Proof/Queue/Mpsc/'
+D=os.path.dirname(os.path.dirname(os.path.abspath(__file__))) + '/'
 def write(c, body, pre=''):
     args=dict(CT)[c]
     binder=''.join(f' ({a} : {TY[a]})' for a in args)
